@@ -57,8 +57,9 @@ namespace Givaro
     (Element& r, const Element& a, const Element& b) const
     {
         if (a < b) {
-            RecInt::sub(r, _p, b);
-            RecInt::add(r, a);
+            // p - (b - a): a and b are both read before r is written (r may be a or b)
+            RecInt::sub(r, b, a);
+            RecInt::sub(r, _p, r);
         }
         else RecInt::sub(r, a, b);
         return r;
